@@ -18,6 +18,7 @@ SIZES.update({"3H": 6, "3B": 3, "2I": 8})     # multi-element formats
 # formats whose native size differs from the standard one ('l', 'L') or that
 # contain padding ('hI', 'BI'): layout and access must agree on native rules
 SIZES.update({"l": 8, "L": 8, "hI": 8, "BI": 8})
+SIZES.update({"4s": 4, "6s": 6})          # byte strings of a fixed length
 _IDENT = {"?": "bool"}
 
 # boundary values per format; 'x' (fixed point, 1e-5) values are dyadic so
@@ -48,11 +49,17 @@ VALUES["hI"] = [(0, 1), (-1, 0), (1, 0xffffffff), (0x1234, 0x9abcdef0),
                 (-0x8000, 0x80000000)]
 VALUES["BI"] = [(0, 1), (0xff, 0), (1, 0xffffffff), (0x12, 0x9abcdef0),
                 (0xff, 0xffffffff)]
+# byte strings: trailing and leading zero bytes are data like any other
+VALUES["4s"] = [b"\0\0\0\0", b"AB\0\0", b"\0\0\0\x01", b"ABCD",
+                b"\xff\0\xff\0"]
+VALUES["6s"] = [b"\0" * 6, b"abc\0\0\0", b"\0abcde", b"123456",
+                b"\x80\0\0\0\0\0"]
 NVALUES = 5
 # a value whose encoding has no zero byte, to find the bytes a variable owns
 PROBE = {"B": 0xff, "H": 0xffff, "I": 0xffffffff, "Q": 0xffffffffffffffff,
          "b": -1, "h": -1, "i": -1, "q": -1, "?": True, "x": -0.5,
          "3H": (0xffff,) * 3, "3B": (0xff,) * 3, "2I": (0xffffffff,) * 2,
+         "4s": b"\xff" * 4, "6s": b"\xff" * 6,
          "l": -1, "L": 0xffffffffffffffff, "hI": (-1, 0xffffffff),
          "BI": (0xff, 0xffffffff)}
 
@@ -79,6 +86,8 @@ BAD["3B"] = [(1, 2), 5, (256, 2, 3), (1, 256, 3), (1, 2, -1), (1, 2, None)]
 BAD["2I"] = [(1,), (1, 2, 3), (-1, 2), (1, 1 << 32), (1, 1.5)]
 BAD["hI"] = [(7,), 5, (40000, 1), (7, -1), (7, 1 << 32), (7, None)]
 BAD["BI"] = [(7,), (256, 1), (7, -1), (7, 1 << 32), (-1, -1)]
+BAD["4s"] = [5, None, "abcd", (b"ab", b"cd"), 1.5]
+BAD["6s"] = [5, None, "abcdef", (b"abc", b"def"), 1.5]
 # the two values of the write histories (A-B-A across the processes): they
 # differ for every format
 HIST_A, HIST_B = 1, 3
@@ -237,6 +246,24 @@ class Dev_sub_wr(Dev_base_wr):
     v1 = DeviceVar("I", write=True)
     v3 = DeviceVar("?", write=True)
 
+
+class Dev_sub_bytes(Device):
+    """byte-string variables next to numbers"""
+    FMTS = ("4s", "H", "6s")
+    v0 = DeviceVar("4s")
+    v1 = DeviceVar("H")
+    v2 = DeviceVar("6s")
+
+
+class Dev_sub_bytes_w(Device):
+    FMTS = ("6s", "4s")
+    v0 = DeviceVar("6s", write=True)
+    v1 = DeviceVar("4s")
+
+
+for _cls in (Dev_sub_bytes, Dev_sub_bytes_w):
+    CLASSES[_cls.__name__] = _cls
+    ORDER.append(_cls.__name__)
 
 for _cls in (Dev_base_H_q, Dev_sub_B_x, Dev_base_ovr, Dev_sub_ovr,
              Dev_sub_multi, Dev_sub_multi2, Dev_sub_native, Dev_sub_padded,
